@@ -109,6 +109,7 @@ structure MapInv (c : Conn) : Prop where
   inv : ∀ r s, c.map.req2stream.get r = some s ↔ c.map.handlers.get s = some r
   brk : c.broken = true → c.queue = [] ∧ c.sending = [] ∧ c.notices = [] ∧ c.map.handlers = [] ∧
     ∃ k, c.cause = some k
+  alive : c.broken = false → c.cause = none
 
 theorem MapInv.init : MapInv Conn.init := by
   constructor <;> simp [Conn.init, HMap.new, new_length, srvStreams, srvReqs]
@@ -465,6 +466,7 @@ theorem MapInv.writerTake {c : Conn} (h : MapInv c) : MapInv (step c .writerTake
             · intro e; cases e
           · simp only [e1, e2, if_false]; exact h.inv r' s'
         · intro hb'; simp_all
+        · exact h.alive
       · rename_i hnone
         refine { h with reqOnce := ?_, reqLt := ?_, brk := ?_ }
         · intro x
@@ -596,6 +598,7 @@ theorem MapInv.orphanerStep {c : Conn} (h : MapInv c) : MapInv (step c .orphaner
             · intro e; cases e
           · simp only [e1, e2, if_false]; exact h.inv r' s'
         · intro hb'; simp_all
+        · exact h.alive
 
 theorem MapInv.doBreak {c : Conn} (k : BreakKind) (h : MapInv c) : MapInv (doBreak c k) := by
   unfold Conn.doBreak
@@ -621,6 +624,7 @@ theorem MapInv.doBreak {c : Conn} (k : BreakKind) (h : MapInv c) : MapInv (doBre
     show AMap.get [] r = some s ↔ AMap.get [] s = some r
     simp
   · intro _; exact ⟨rfl, rfl, rfl, rfl, k, rfl⟩
+  · intro hf; cases hf
 
 /-- A frame on a stream the server does not owe: the lookup frees the id and finds nothing. -/
 theorem MapInv.freeUnowed {c : Conn} {s : Nat} (h : MapInv c) (hs : s ∉ srvStreams c) :
@@ -762,6 +766,7 @@ theorem MapInv.respond {c : Conn} (i : Nat) (h : MapInv c) : MapInv (step c (.re
         · intro hb'
           have : c.broken = true := hb'
           rw [hb] at this; cases this
+        · exact h.alive
       rcases lookup_owed h hb hm with ⟨ho, hl⟩ | ⟨hno, hh, hl⟩
       · rw [hl]
         apply base _ c.callers
